@@ -8,10 +8,17 @@ ASSUMPTIONS = ["the AST family of kit.astgen has the shape the parser returns (v
                "shapes: <= 2 rules, <= 2 scenario slots per container (6 slot types incl. step-less scenarios, outlines with table-less / header-only / multi-row examples), backgrounds with 0-2 steps at both levels; larger documents are outside the claim"]
 
 
+def source_level(tier):
+    """pickles against what the SOURCE says: the REAL parser + builder + compiler from every grammar configuration (line-kind level,
+    prefix + K symbolic lines) against the reference AST built from the grammar derivation and the reference compiler"""
+    from . import _p
+    return _p.pdrv_conditions(k_all=1, k_tags=1, stop_too=False) if tier == "quick" else _p.pdrv_conditions(k_all=2, k_tags=2, stop_too=False)[::3]
+
+
 def shape_conditions(fn, clause, ctxs, split="a", T=600, reach=("two-pickles",)):
     cs = []
     for ctx in ctxs:
-        vals = range(6) if split in ("a", "b") else range(4)
+        vals = range(7) if split in ("a", "b") else range(4)
         for v in vals:
             cs.append(Cond(M, fn, {"ctx": ctx, "clause": clause, "fix": {split: v}}, T=T,
                            reach=list(reach) if v in (2, 3, 4) else [],
